@@ -290,6 +290,24 @@ func c10Integrity(obj interface{}, domain []int, max int) (bad string) {
 			bad = "panic while reading the structure out: " + strings.SplitN(fmt.Sprint(r), "\n", 2)[0]
 		}
 	}()
+	if ll, ok := obj.(*list.LinkedList); ok {
+		// a list: Size() is never negative, ToArray() and a walk from the first node have Size() elements
+		size := ll.Size()
+		if size < 0 {
+			return fmt.Sprintf("Size() is %d", size)
+		}
+		if n := len(ll.ToArray()); n != size {
+			return fmt.Sprintf("Size() is %d but ToArray() has %d elements", size, n)
+		}
+		n := 0
+		for e := ll.GetFirst(); e != nil && n <= size+1; e = ll.GetNext(e) {
+			n++
+		}
+		if n != size {
+			return fmt.Sprintf("Size() is %d but a walk from the first node visits %d", size, n)
+		}
+		return ""
+	}
 	v := reflect.ValueOf(obj)
 	km := v.MethodByName("Keys")
 	if (!km.IsValid() || km.Type().NumIn() != 0) && strings.HasSuffix(reflect.TypeOf(obj).String(), "Set") {
